@@ -72,6 +72,7 @@ def run(chk):
     r_functions(chk, prog, m)
     r7(chk, prog, m)
     r8_sort(chk, prog, m)
+    r9_wrappers(chk, prog)
     chk.undecided_clauses += [
         "element-wise equality with a list model over operation histories (value-level)",
         "that the comparator defines a strict weak ordering (caller's obligation)",
@@ -436,3 +437,91 @@ def r8_sort(chk, prog, m):
         else:
             chk.proven(rid, g.name, "binary search", g.entry.term.locstr(), "bsearch over the whole list")
     chk.floor(rid, n, 60, "lists evaluated")
+
+
+# ---------------------------------------------------------------------------
+# R9 the node-level array operations hand their request to the list
+def r9_wrappers(chk, prog):
+    from .. import pe
+    rid = "C07.R9"
+    chk.rule(rid, "json_object_array_put_idx / json_object_array_add / json_object_array_insert_idx hand every request to the list "
+                  "routine unchanged: evaluated with a value that is a node or JSON null and an index inside / beyond a list of two "
+                  "elements, the list routine is called exactly once with (list, index, value) and its result is returned - storing "
+                  "null beyond the end is a request like any other (it extends the list with nulls)")
+    mo = prog.module("json_object.c")
+    chk.require(mo is not None, "json_object.c not in the build")
+    names = mo.struct_fields("%struct.json_object_array")
+    chk.require(names and "c_array" in names, "layout of struct json_object_array not found")
+    K = names.index("c_array")
+    types = mo.enumerators("json_type")
+
+    class WPE(pe.PE):
+        def should_inline(self, g, instr):
+            return g.internal
+
+        def init_mem(self, state, base, path, t):
+            if base != "arr":
+                return pe.TOP
+            q = [x for x in path if x != ("i", 0)]
+            k = 0 if not q else (q[0] if isinstance(q[0], int) else q[0][2] if isinstance(q[0], tuple) and q[0][0] == "f" else None)
+            if not q:
+                return pe.C(types["json_type_array"])
+            if k == K:
+                return ("ptr", "list", ())
+            return pe.TOP
+
+        def call_model(self, state, frame, i, args):
+            nm = i.callee or ""
+            if nm in ("array_list_put_idx", "array_list_add", "array_list_insert_idx"):
+                self.listcalls.append((nm, args))
+                return pe.C(0)
+            if nm == "array_list_get_idx":
+                k = args[1][1] if pe.is_const(args[1]) else None
+                return ("ptr", "elem%d" % k, ()) if k is not None and 0 <= k < 2 else pe.C(0)
+            if nm in ("array_list_length", "json_object_array_length"):
+                return pe.C(2)
+            if nm in ("json_object_get_type",):
+                return pe.C(types["json_type_array"])
+            if nm == "__assert_fail":
+                return "STOP"
+            return None
+    n = 0
+    for fname, listfn, has_idx in (("json_object_array_put_idx", "array_list_put_idx", True), ("json_object_array_add", "array_list_add", False),
+                                   ("json_object_array_insert_idx", "array_list_insert_idx", True)):
+        f = mo.functions.get(fname)
+        if f is None or f.is_decl:
+            continue
+        chk.touched(f)
+        bad = und = None
+        for val in (pe.C(0), ("ptr", "newval", ())):
+            for idx in ((0, 1, 2, 5) if has_idx else (None,)):
+                h = WPE(prog, max_leaves=20, max_steps=5000)
+                h.listcalls = []
+                args = [("ptr", "arr", ())] + ([pe.C(idx)] if has_idx else []) + [val]
+                try:
+                    leaves = h.run(f, args, pe.State())
+                except Exception as e:
+                    und = und or str(e)
+                    continue
+                n += 1
+                rets = [lf for lf in leaves if lf.kind == "ret"]
+                what = "%s(%s%s)" % (fname, ("index %d, " % idx) if has_idx else "", "null" if val == pe.C(0) else "a node")
+                if len(rets) != 1 or len(leaves) != 1:
+                    und = und or "%s: the evaluation does not end in one return" % what
+                    continue
+                want_args = [("ptr", "list", ())] + ([pe.C(idx)] if has_idx else []) + [val]
+                ok = len(h.listcalls) == 1 and h.listcalls[0][0] == listfn and \
+                    [pe._norm_ptr(a) if a[0] == "ptr" else a for a in h.listcalls[0][1][:len(want_args)]] == \
+                    [pe._norm_ptr(a) if a[0] == "ptr" else a for a in want_args]
+                if not ok and bad is None:
+                    bad = "%s %s: the request never reaches the list as (list, %svalue), so the array is not changed the way the " \
+                          "operation is documented to change it" % (what, "calls %s %d time(s)" % (listfn, len(h.listcalls)) if len(h.listcalls) != 1 else
+                                                                     "passes other arguments to " + listfn, "index, " if has_idx else "")
+        sig = "delegation of " + fname
+        if bad:
+            chk.refuted(rid, fname, sig, f.entry.term.locstr(), bad)
+        elif und:
+            chk.undecided(rid, fname, sig, f.entry.term.locstr(), und)
+        else:
+            chk.proven(rid, fname, sig, f.entry.term.locstr(), "one call of %s with the caller's arguments" % listfn)
+    chk.floor(rid, n, 8, "wrapper evaluations")
